@@ -82,6 +82,21 @@ def kernel_job(job):
     tau = dt * tau_steps
     tally = decide.Tally()
     out = dict(violations=[], inconclusive=[])
+    if job.get('complex'):
+        # concrete probe (not solver-decided): the real kernel and the real history on a complex128 state
+        conf = _replay_dde(job, None, None)
+        tally.obligations += 1
+        if conf is not None:
+            tally.sat += 1
+            tally.sat_confirmed += 1
+            out['violations'].append(dict(real_value=str(conf[0]), iterate=str(conf[1]), what=f"fixed-step DDE run with a complex "
+                                          f"state ({'heun' if heun else 'euler'}, delay {tau_steps} steps): "
+                                          + (f"row {conf[2]} is {conf[0]} on the real kernel, the method-of-steps iterate "
+                                             f"is {conf[1]}" if len(conf) > 2 else str(conf[0]))))
+        else:
+            tally.unsat += 1
+        out['tally'] = tally.as_dict()
+        return out
     symx.Ctx.cur = symx.Ctx()
     Fs = [symx.UF(f"G{i}", 2 * n + 1) for i in range(n)]      # G_i(step, y, y_delayed)
 
@@ -168,6 +183,11 @@ def _replay_dde(job, k, i):
     def g(s, y, yd):
         return np.array([-0.7 * yd[j] + 0.2 * math.sin(y[j] + s) + 0.1 * j for j in range(n)])
     y0 = np.linspace(0.4, 0.9, n)
+    cplx = bool(job.get('complex'))
+    if cplx:
+        def g(s, y, yd):     # noqa
+            return np.array([(-0.7 + 0.3j) * yd[j] + 0.2j * y[j] + 0.1 * j + 0.05 * s for j in range(n)])
+        y0 = np.linspace(0.4, 0.9, n) + 1j * np.linspace(0.2, 0.5, n)
     try:
         if job.get('backend', 'base') == 'torch':
             import torch
@@ -200,10 +220,10 @@ def _replay_dde(job, k, i):
             traj.append(cur + dt * f1)
     if k is None:
         # scan all stored rows (used when the symbolic run of the kernel broke down)
-        R = np.asarray(rec, dtype=float)
+        R = np.asarray(rec, dtype=complex if cplx else float)
         for k_ in range(R.shape[0]):
             for i_ in range(n):
-                got, want = float(R[k_, i_]), float(traj[k_ * store][i_])
+                got, want = (complex if cplx else float)(R[k_, i_]), (complex if cplx else float)(traj[k_ * store][i_])
                 if not abs(got - want) <= 1e-9 * max(1.0, abs(want)):
                     return got, want, k_
         return None
@@ -268,6 +288,15 @@ def run(tier='quick', seed=0, only=None, verbose=False):
                     if not heun:        # the torch backend has its own Euler kernel (and accepts delayed models)
                         kj.append(dict(key=f"kernel:torch:steps={steps}:tau={tau_steps}:euler:n={n}", steps=steps,
                                        tau_steps=tau_steps, heun=False, n=n, backend='torch'))
+    # a delay of zero (a delayed term that is switched off reads the newest record) and, as a concrete probe, a complex
+    # state vector (the history keeps the dtype of the state)
+    for steps in ((4,) if tier == 'quick' else (3, 6)):
+        for heun in (False, True):
+            for n in (1, 2):
+                kj.append(dict(key=f"kernel:steps={steps}:tau=0:{'heun' if heun else 'euler'}:n={n}", steps=steps, tau_steps=0,
+                               heun=heun, n=n))
+                kj.append(dict(key=f"kernel:complex:steps={steps}:tau=2:{'heun' if heun else 'euler'}:n={n}", steps=steps,
+                               tau_steps=2, heun=heun, n=n, complex=True, cap=2 if n == 2 else None))
     if only:
         kj = [j for j in kj if only in j['key']]
     for job, outc in runner.run_jobs(kernel_job, kj, timeout=600):
